@@ -220,5 +220,5 @@ Proof.
   - intros x Hx. apply B. unfold resolver_reps. apply in_flat_map.
     exists (inc_spec p claim). split; [exact Hin|]. apply in_flat_map. exists g.
     split; [exact Hg|]. unfold g. destruct claim; exact Hx.
-  - intros Hn Ho. apply Hn. apply (A _ eq_refl). exact Ho.
+  - intros Hn Ho. apply Hn. apply (A (OFinal (ip_idx p) (negb claim)) eq_refl). exact Ho.
 Qed.
